@@ -70,6 +70,9 @@ def checkDirective (name : String) (args : List String) (inst : String → Optio
   | [k0, k1] =>
     match inst k0, inst k1 with
     | some i0, some i1 =>
+      -- the call that was to reset instance `k0` panicked instead: no power-on state
+      if i0.dead && !i1.dead && endsWithRis i0.diedOn then
+        ([check "C19:ris-panicked-instead-of-resetting" true false], []) else
       if i0.dead || i1.dead then ([], []) else
       let fresh := i1.history == 0
       ([check (if fresh then "C19:state-after-ris-equals-fresh" else "C19:state-after-ris+continuation-equals-fresh+continuation")
